@@ -13,6 +13,7 @@ Not decided: the ledger equation itself, order independence, pruning arithmetic,
 """
 import re
 
+import defuse
 import extract
 import ps_rules
 import sqlfx
@@ -131,6 +132,95 @@ def fk_cascade(w):
     return casc
 
 
+def recv_spent(chk, w):
+    """Blocks may be scanned in any order, so a note can be received after the block spending it was
+    scanned: every received note is stored together with the result of the spent-before-received
+    lookup made for that same output (never with a constant `None`)."""
+    fs = [f for f in w.fns.values() if f.p.endswith("data_api::ll::wallet::put_shielded_outputs")]
+    if len(fs) != 1:
+        chk.fail("RECV", "missing", "ll::wallet::put_shielded_outputs not found")
+        return
+    f = fs[0]
+    nm = list(f.argnames or [])
+    if "detect_note_spent_in" not in nm or "put_received_note" not in nm:
+        chk.fail("RECV", "params", "put_shielded_outputs no longer takes the two callbacks (%s)" % nm, f.span.loc())
+        return
+    di, pi = nm.index("detect_note_spent_in"), nm.index("put_received_note")
+    b, du = f.body, defuse.DefUse(f.body)
+    n = 0
+    for bb, t in b.calls():
+        if b.blocks[bb].cleanup or t.callee.indirect is not None or not re.search(r"ops::Fn(Mut)?::call(_mut)?$", t.callee.target_p()):
+            continue
+        if defuse.show(du.origin(t.args[0])) != "&arg%d" % pi:
+            continue
+        tup = du.origin(t.args[1])
+        n += 1
+        ok = False
+        if tup[0] == "agg" and tup[1] == "tuple" and len(tup[2]) == 4:
+            out_txt = defuse.show(tup[2][1])
+            sp = defuse.show(tup[2][3])
+            m = re.match(r"^\(branch\(call\(&arg%d, tuple\{&\*arg0, (.+)\}\)\) as Continue\)\.0$" % di, sp)
+            norm = lambda x: re.sub(r"into_iter\(arg\d+\)|_\d+", "IT", x)
+            ok = bool(m) and norm(m.group(1)) == norm(out_txt)
+        if ok:
+            chk.ok("RECV", "put_shielded_outputs [%s]: the note is stored with detect_note_spent_in(db, the same output)"
+                   % t.span.loc(), sample=(n == 1))
+        else:
+            chk.fail("RECV", "put_shielded_outputs#%d" % n, "a received note is stored with the spent-in value %s instead "
+                     "of the spent-before-received lookup for that output: a note whose spend was scanned earlier stays "
+                     "unspent" % (defuse.show(tup[2][3])[:100] if tup[0] == "agg" and len(tup[2]) == 4 else defuse.show(tup)[:100]),
+                     t.span.loc())
+    if n < 2:
+        chk.fail("RECV", "sites", "expected the two stores of received notes (incoming and internal), found %d" % n, f.span.loc())
+
+
+def upsert_siblings(chk, w, fx):
+    """The pools' received-note upserts resolve a conflict the same way column by column: for every
+    column the Sapling and the Orchard-protocol statements both update, the update expression is the
+    same modulo the column's own name (e.g. `nf = IFNULL(:nf, nf)`: a newly computed value replaces
+    the stored one)."""
+    def sets(f):
+        out = {}
+        for _bb, _kind, _t, text in fx.sites.get(f.id, []):
+            m = re.search(r"ON CONFLICT.*?DO UPDATE\s+SET(.*?)(RETURNING|WHERE|$)", text, re.S)
+            if not m:
+                continue
+            body = re.sub(r"\s+", " ", m.group(1))
+            depth, cur, parts = 0, "", []
+            for ch in body:
+                if ch == "(":
+                    depth += 1
+                elif ch == ")":
+                    depth -= 1
+                if ch == "," and depth == 0:
+                    parts.append(cur)
+                    cur = ""
+                else:
+                    cur += ch
+            parts.append(cur)
+            for p_ in parts:
+                if "=" in p_:
+                    col, expr = p_.split("=", 1)
+                    out[col.strip()] = re.sub(r"\s+", " ", expr.strip())
+        return out
+    sa = [f for f in w.fns.values() if f.p == "zcash_client_sqlite::wallet::sapling::put_received_note"]
+    orc = [f for f in w.fns.values() if f.p == "zcash_client_sqlite::wallet::orchard::put_received_note"]
+    if len(sa) != 1 or len(orc) != 1:
+        chk.fail("UPSIB", "missing", "the pools' put_received_note functions were not found")
+        return
+    a, o = sets(sa[0]), sets(orc[0])
+    common = sorted(set(a) & set(o))
+    if len(common) < 6:
+        chk.fail("UPSIB", "columns", "the two upserts share only the columns %s" % common, sa[0].span.loc())
+        return
+    for col in common:
+        if a[col] == o[col]:
+            chk.ok("UPSIB", "received-note upserts agree on `%s = %s`" % (col, a[col]), sample=(col == "nf"))
+        else:
+            chk.fail("UPSIB", "put_received_note/%s" % col, "on conflict the Sapling upsert sets `%s = %s` but the "
+                     "Orchard-protocol upsert sets `%s = %s`" % (col, a[col], col, o[col]), sa[0].span.loc())
+
+
 def main(tier):
     chk = Check("C01", "other", tier)
     chk.explanation = (
@@ -151,6 +241,8 @@ def main(tier):
     chk.rule("BOUNDARY", "the rewind splits heights consistently: rows above the height go, rows at "
              "or below it stay", floor=4)
     chk.rule("PRUNE", "the nullifier map is pruned relative to the fully-scanned height", floor=2)
+    chk.rule("RECV", "received notes are stored with the spent-before-received lookup", floor=2)
+    chk.rule("UPSIB", "the pools' received-note upserts resolve conflicts alike", floor=6)
     chk.rule("control", "positive controls", floor=2)
 
     ps_rules.ps1(chk, FILES)
@@ -245,6 +337,10 @@ def main(tier):
                 chk.fail("IDEM", "%s/%s" % (f.p, table), "plain INSERT into %s on the scan path with no "
                          "upsert clause, existence-read guard or preceding delete: scanning the same "
                          "blocks again fails or duplicates rows" % table, f.span.loc())
+
+    # ------------------------------------------------------------------ RECV (spent-before-received)
+    recv_spent(chk, w)
+    upsert_siblings(chk, w, fx)
 
     # ------------------------------------------------------------------ SPLICE
     need = {
